@@ -38,6 +38,8 @@ def main():
     dst = f"/verif/seeded/{pid}-{n}"
     if "--as" in a:
         dst = "/verif/seeded/" + a[a.index("--as") + 1]
+    if "--keep" in a and os.path.exists(os.path.join(dst, "meta.json")):
+        src = None  # use what is already recorded under /verif/seeded (e.g. a ported patch)
     if src:
         os.makedirs(dst, exist_ok=True)
         for f in ("patch.diff", "demo_test.go"):
@@ -76,6 +78,15 @@ def main():
         ver["demo_with_patch_tail"] = out[-500:]
     sh("git checkout -- . && rm -f zz_seed_demo_test.go", wt)
     ver["cmds"] = ["git apply patch.diff; go build ./... && go test -vet=off -count=1 ./...", run_demo + " (with and without the patch)"]
+    if os.path.exists(os.path.join(dst, "meta.json")):
+        try:
+            prev = json.load(open(os.path.join(dst, "meta.json")))
+            if "note" in prev:
+                meta["note"] = prev["note"]
+            if prev.get("needs") and not meta.get("needs"):
+                meta["needs"] = prev["needs"]
+        except Exception:
+            pass
     meta["verified"] = ver
     ok = ver.get("demo_on_clean_tree") == "pass" and ver.get("suite_with_patch") == "pass" and ver.get("demo_with_patch", "").startswith("fails")
     meta["confirmed"] = ok
